@@ -185,3 +185,47 @@ def judge(ctx, camp, verdicts, conformance=None, clauses=(), nontrivial=None):
         raise tlc.MachineryError("%d TLC evaluation errors, e.g. %s on %s" % (
             len(spec_errors), spec_errors[0]["why"], json.dumps(payload_of(sh, spec_errors[0]).get("prog"))[:400]))
     return counts
+
+
+def replay(ctx, path):
+    """re-run the calls of a replay file on the real library and have TLC judge them again (Trace.tla and CAM.tla);
+    returns True if the recorded violation shows again"""
+    with open(path) as f:
+        doc = json.load(f)
+    pl = doc["payload"]
+    sig = doc.get("signature", {})
+    if pl.get("kind") not in ("call", "session") or not pl.get("prog") or pl["prog"].get("k") == "Opaque":
+        return None
+    calls = [dict(pl["call"], res=pl["recorded"]["res"])] if pl["kind"] == "call" else pl["calls"]
+    con = A.realize(pl["prog"])
+    with Campaign(ctx, "replay") as camp:
+        idxs = []
+        for c in calls:
+            kw = V.dec(c["kw"])
+            flt = c["flt"] if c["flt"].get("mode") != "none" or c["flt"].get("k") else None
+            if c["op"] == "parse":
+                i, _ = camp.parse(pl["prog"], con, bytes(c["data"]), c["start"], kw, flt)
+            elif c["op"] == "build":
+                try:
+                    obj = V.dec(c["arg"])
+                except Exception:
+                    return None
+                i, _ = camp.build(pl["prog"], con, obj, bytes(c["data"]), kw, flt, arg=c["arg"])
+            else:
+                i, _ = camp.sizeof(pl["prog"], con, kw)
+            idxs.append(i)
+        if pl["kind"] == "session":
+            camp.sh.session(pl["clause"], idxs, x=pl.get("x"))
+        vs = camp.validate()
+        cvs = validate_cam(camp)
+    again = False
+    for v in vs:
+        print("replay: %s %s %s" % (v["id"], v["st"], v.get("why", "")))
+        if v["st"] in ("mismatch", "fail") and (v.get("why") == sig.get("clause") or kind_of(v) == sig.get("why") or v["st"] == "fail"):
+            again = True
+    for v in cvs:
+        for f in v.get("fails", []):
+            print("replay: machine clause %s at event %s (%s)" % (f["clause"], f["at"], f["node"]))
+            if f["clause"] == sig.get("clause"):
+                again = True
+    return again
